@@ -133,3 +133,98 @@ def run(facts, rep):
     else:
         rep.ok('E31.P2-relates-both-columns', inst, '%d true paths, all decided by %s' % (n_true, sorted(set(verdicts['good']))))
     rep.floor('E31 true-answering paths of col_intersects', n_true, 1)
+
+
+def check_triang_storage(facts, rep):
+    """P3 (C12, "the triangular solvers return an exact solution for every valid input"): a valid triangular matrix may
+    *store* zeros anywhere (is_triang and the debug preconditions look at values, not at the pattern), so "the diagonal
+    entry of column j" is the stored entry with row index j - found by comparing indices - and never "the first / last
+    stored entry of the column". The functions of yui_matrix::sparse::triang therefore see the matrix only through its
+    (i, j, value) iterators (`iter`, `col_vec(j).iter()`); none of them reads the raw compressed storage (`inner()`,
+    `data()`, `col(j)`, `row_indices()`, `values()`, `col_offsets()`, `disassemble()`), and collect_diag keeps an entry
+    iff i == j."""
+    import re
+    from symex import SymEx, show, strip, apply_closure
+    RAW = ('inner', 'data', 'col', 'row_indices', 'values', 'col_offsets', 'disassemble', 'csc_data', 'into_raw_data')
+    n = 0
+    hits = []
+    for k, b in sorted(facts.bodies.items()):
+        if not k.startswith('yui_matrix::sparse::triang::') or '::tests::' in k:
+            continue
+        n += 1
+        rep.saw(b)
+        for c in b.calls():
+            g = (c.generic or '')
+            last = g.split('::')[-1]
+            if last in RAW and ('SpMat' in g or 'Csc' in g or 'CsLane' in g or 'CsMatrix' in g or 'cs::' in g):
+                hits.append((k.split('::triang::')[-1], last, c.line))
+    inst = 'sparse::triang|entries are reached through (i, j, value) iterators only'
+    compares = False
+    if hits:
+        # raw access is wrong only as a way of finding entries *by position*: a function that compares the stored row
+        # indices with something is doing its own (unread) search - not judged
+        for k, b in facts.bodies.items():
+            if k.startswith('yui_matrix::sparse::triang::') and k.split('::triang::')[-1].split('::')[0] == hits[0][0].split('::')[0]:
+                try:
+                    for p in SymEx(b, havoc_loops=True, max_paths=3000).run():
+                        for c in p.branches():
+                            t_ = re.sub(r'#(?:i\d+:)?\d+\.\d+', '', show(c.term, -1000))
+                            if re.match(r'^(Eq|Ne|Lt|Le|Gt|Ge|eq|ne|cmp|lt|le|gt|ge)\(', t_) and re.search(r'row_indices\(|data\([^)]*\)\.1|\.row_idx|rows\[', t_):
+                                compares = True
+                except Exception:
+                    compares = True
+    if hits and compares:
+        rep.indet('E31.P3: %s reads the compressed storage (`%s`) and compares row indices itself: not read' % hits[0][:2])
+    elif hits:
+        rep.violation('E31.P3-no-raw-storage', inst,
+                      '%s reads the compressed storage of the matrix (`%s`, line %d): an entry is then identified by its position among the stored entries of a column, which is right only while no zero is stored outside the triangle - for such a (valid) input the solver takes a stored zero for the diagonal' % hits[0],
+                      where='yui-matrix/src/sparse/triang.rs:%d' % hits[0][2])
+    else:
+        rep.ok('E31.P3-no-raw-storage', inst, '%d functions, no raw storage access' % n)
+    rep.floor('E31.P3 functions of sparse::triang', n, 8)
+    # collect_diag: Some(a) iff i == j
+    cd = facts.bodies.get('yui_matrix::sparse::triang::collect_diag')
+    if cd is None:
+        rep.indet('E31.P3: collect_diag not found')
+        return
+    inst2 = 'collect_diag|keeps the stored entry (i, j, a) iff i == j'
+    verdict = None
+    for p in SymEx(cd, havoc_loops=True, max_paths=500).run():
+        for e in p.calls():
+            if e.name.split('::')[-1] == 'filter_map' and len(e.args) == 2 and strip(e.args[1])[0] == 'closure':
+                rows = set()
+                for q in apply_closure(e.args[1], [('item',)]) or []:
+                    if q.end != 'return' or q.ret is None:
+                        continue
+                    conds = [(re.sub(r'#(?:i\d+:)?\d+\.\d+', '', show(c.term, -1000)), c.value != 0) for c in q.branches()]
+                    r = strip(q.ret)
+                    rows.add((tuple(conds), r[2] if r[0] == 'adt' else '?'))
+                eq = {"Eq(('item',).0, ('item',).1)", "Eq(('item',).1, ('item',).0)"}
+                if rows and all(len(c) == 1 and c[0][0] in eq for c, _ in rows) and {(c[0][1], v) for c, v in rows} == {(True, 'Some'), (False, 'None')}:
+                    verdict = 'ok'
+                else:
+                    verdict = str(sorted(rows, key=str))[:160]
+    if verdict is None:
+        # the same selection as a loop: for (i, j, a) in a.iter() { if i != j { continue } diag.push(a) }
+        seen_ = set()
+        for p in SymEx(cd, havoc_loops=True, max_paths=500).run():
+            if p.end != 'backedge':
+                continue
+            pushed = any(e.name.split('::')[-1] == 'push' and len(e.args) == 2 and re.search(r'\.Some\.0\.2$', re.sub(r'#(?:i\d+:)?\d+\.\d+', '', show(strip(e.args[1]), -1000))) for e in p.calls())
+            eqs = []
+            for c in p.branches():
+                t_ = re.sub(r'#(?:i\d+:)?\d+\.\d+', '', show(c.term, -1000))
+                m_ = re.match(r'^(Eq|Ne)\((next\(&mut _\d+\)\.Some\.0)\.([01]), (next\(&mut _\d+\)\.Some\.0)\.([01])\)$', t_)
+                if m_ and m_.group(2) == m_.group(4) and {m_.group(3), m_.group(5)} == {'0', '1'}:
+                    eqs.append((c.value != 0) == (m_.group(1) == 'Eq'))
+            seen_.add((pushed, tuple(eqs)))
+        if seen_ and seen_ == {(True, (True,)), (False, (False,))}:
+            verdict = 'ok'
+        elif seen_:
+            verdict = 'loop: %s' % sorted(seen_)
+    if verdict == 'ok':
+        rep.ok('E31.P3-no-raw-storage', inst2, 'filter_map(|(i, j, a)| (i == j).then(a))')
+    elif verdict is None and not hits:
+        rep.indet('E31.P3: collect_diag outside the recognised fragment')
+    elif verdict is not None and verdict != 'ok':
+        rep.indet('E31.P3: collect_diag selects by %s' % verdict)
